@@ -1136,7 +1136,14 @@ mod thr {
             last = Some(tid);
             let act = sh.ctx.lock().unwrap().get(&tid).cloned().unwrap();
             ctls[tid].grant();
-            let _ = ctls[tid].wait_parked_timeout(Duration::from_secs(20));
+            let mut ph = ctls[tid].wait_parked_timeout(Duration::from_secs(20));
+            // cluster build: `ActorCell::new` has a point between its two registry operations; this engine's
+            // model (`Model/Registry.lean`) has them as one region, so the thread is taken through it at once
+            // (the window itself is the subject of `regmon.rs` / `Model/RegistryConc.lean`)
+            while ph == Some(ThreadPhase::AtPoint("new.reg_pid")) {
+                ctls[tid].grant();
+                ph = ctls[tid].wait_parked_timeout(Duration::from_secs(20));
+            }
             steps += 1;
             let k = match &act {
                 Act::Spawn { k, .. } | Act::Exit { k, .. } | Act::LateDrain { k } => *k,
